@@ -6,6 +6,7 @@ From SCC Require Import Model.RunFun2Core.
 From SCC Require Import Model.RunRT.
 From SCC Require Import Model.RunLin.
 From SCC Require Import Base.Sexp Model.RunBase Model.RunCheck.
+From SCC Require Import Model.RunFmt.
 Open Scope string_scope.
 
 Definition dispatch (cmd : string) (input : string) : string :=
@@ -22,5 +23,6 @@ Definition dispatch (cmd : string) (input : string) : string :=
   | "fun2core" => run_fun2core input
   | "rt" => run_rt input
   | "check" => run_check input
+  | "fmt" => run_fmt input
   | _ => "BAD - unknown command " ++ cmd ++ nl
   end.
